@@ -237,10 +237,17 @@ impl<Effect, Event> Command<Effect, Event> {
         //
         // Note that there is an exception: the task may have used the waker and dropped it,
         // making it ready, rather than abandoned.
-        let task_is_ready = arc_waker.woken.load(Ordering::Acquire);
+        //
+        // The count has to be read before the flag: a copy of the waker held by another thread
+        // (e.g. a shell resolving a request) sets the flag and only then lets go of its copy, so once
+        // we see no other copy, any wake-up that went through one is visible in the flag. Reading the
+        // flag first would let such a wake-up slip between the two reads and evict a woken task
+        let is_only_copy = Arc::strong_count(&arc_waker) < 2;
+        std::sync::atomic::fence(Ordering::Acquire);
         #[cfg(feature = "crux_verif")]
         crate::verif_sched::point(crate::verif_sched::Point::CommandEvictionMid);
-        if result == TaskState::Suspended && !task_is_ready && Arc::strong_count(&arc_waker) < 2 {
+        let task_is_ready = arc_waker.woken.load(Ordering::Acquire);
+        if result == TaskState::Suspended && !task_is_ready && is_only_copy {
             return TaskState::Cancelled;
         }
 
